@@ -74,6 +74,13 @@ Section Acc.
     | FmtAst.SReturn None [] => True
     | FmtAst.SBreak [] => True
     | FmtAst.SWhile c [] b [] => branch G c b
+    | FmtAst.SFor lv r [] b [] =>
+        match lv with Some x => ident_text x = true | None => True end /\ b <> [] /\
+        match (match lv with Some n => declare TB false n ([] :: G) | None => Some ([] :: G) end) with
+        | Some Gd => Forall (item_ok (envG B F Gd) true) (range_exprs r) /\
+                     match use_vars (lvars (map fexpr_tree (range_exprs r))) Gd with Some G1 => body G1 b | None => False end
+        | None => False
+        end
     | FmtAst.SIf (CBlock c [] b) elifs els [] =>
         branch G c b /\
         match branch_out G c b with
@@ -117,6 +124,14 @@ Section Acc.
     end.
 
   Lemma eok_while G c b : eok G (FmtAst.SWhile c [] b []) = eok_branch G c b.
+  Proof. reflexivity. Qed.
+  Lemma eok_for G lv r b : eok G (FmtAst.SFor lv r [] b []) =
+    (match lv with Some x => ident_text x = true | None => True end /\ b <> [] /\
+     match (match lv with Some n => declare TB false n ([] :: G) | None => Some ([] :: G) end) with
+     | Some Gd => Forall (item_ok (envG B F Gd) true) (range_exprs r) /\
+                  match use_vars (lvars (map fexpr_tree (range_exprs r))) Gd with Some G1 => eokb G1 b | None => False end
+     | None => False
+     end).
   Proof. reflexivity. Qed.
   Lemma eok_if G c b elifs els :
     eok G (FmtAst.SIf (CBlock c [] b) elifs els [])
@@ -289,7 +304,19 @@ Section Acc.
       cbn [scope_stmt otv'] in Hs. fold TB in Hs. fold (branch_out G cond body) in Hs.
       destruct (branch_derive body H k inl fr true G cond G' Hk He Hok Hs) as (G1 & B1 & B2 & B3 & B4 & B5).
       eapply sok_while; eassumption.
-    - exact (match He with end).
+    - (* for *)
+      destruct ch; [|exact (match He with end)]. destruct ce; [|exact (match He with end)].
+      rewrite eok_for in He. destruct He as (Hlv & Hne & He).
+      rewrite stmt_tree_for, range_trees_eq in Hok, Hs. cbn [stmt_ok] in Hok. cbn [scope_stmt] in Hs. fold TB in Hs.
+      destruct (match lv with Some n => declare TB false n ([] :: G) | None => Some ([] :: G) end) as [Gd|] eqn:Hd; [|contradiction].
+      destruct He as [Hall He]. cbn [obind] in Hs.
+      destruct (use_vars (lvars (map fexpr_tree (range_exprs r))) Gd) as [G1|] eqn:Hu; [|contradiction]. cbn [obind] in Hs.
+      unfold blk_of in Hs, Hok. rewrite scope_block_eq in Hs.
+      destruct (scope_stmts TB (body_trees false body) G1) as [Gend|] eqn:Hss; [|discriminate Hs]. cbn [obind] in Hs.
+      destruct (close_used _ _ Hs) as [Hu' _]. cbn [block_ok] in Hok. apply andb_true_iff in Hok as [Ho1 Ho2].
+      eapply (sok_for B F fr G lv r body Gd G1); [| exact Hall | exact Hu | apply body_trees_ne, Hne |].
+      + destruct lv as [x|]; [split; [exact Hlv|exact Hd] | injection Hd as <-; reflexivity].
+      + apply (body_derive body H k (true || inl) (fr_push true fr) G1 false false Gend (kf_push k inl fr true Hk) He Ho1 Ho2 Hss Hu').
     - exact (match He with end).
     - exact (match He with end).
   Qed.
